@@ -236,9 +236,8 @@ func unspellable(n string) bool {
 
 // limitOf classifies a target whose path no lookup can spell (documented limits of C17).
 func limitOf(n *node) string {
-	if n.viaRP {
-		return "D17-L2"
-	}
+	// (a node filed in the Dir of an rpc entry, n.viaRP, was limit D17-L2 until the repair 049247d:
+	// Augment now rejects an rpc/action node as target, so such a node is a plain violation)
 	for i, s := range n.steps {
 		if strings.HasPrefix(s, "c") && unspellable(n.names[i]) {
 			return "D17-L1"
@@ -249,6 +248,9 @@ func limitOf(n *node) string {
 
 func hook(c rescorr.Case, ms *yang.Modules, errs []error, out *rescorr.GoOut) {
 	if len(errs) > 0 {
+		if c.Extra["expect_errors"] == "1" {
+			out.Extra = map[string][]string{"rejected": {"1"}}
+		}
 		return
 	}
 	seed, _ := strconv.ParseInt(c.Extra["seed"], 10, 64)
@@ -266,6 +268,9 @@ func hook(c rescorr.Case, ms *yang.Modules, errs []error, out *rescorr.GoOut) {
 	}
 	for _, d := range w.dup {
 		add(d)
+	}
+	if c.Extra["expect_errors"] == "1" {
+		add("Process accepted a set it must reject (" + c.Extra["label"] + "): its nodes end up where no path reaches them")
 	}
 	dumpBefore := lib.DumpOutcome(ms, nil)
 
@@ -615,7 +620,7 @@ func runCases(cases []rescorr.Case, f *lib.Flags) []worked {
 			ws[i].crashed, ws[i].msg = true, "unreadable worker output"
 			continue
 		}
-		if ws[i].g.ParseErr != "" || ws[i].g.Extra == nil {
+		if ws[i].g.ParseErr != "" || ws[i].g.Extra == nil || len(ws[i].g.Extra["rejected"]) > 0 {
 			continue
 		}
 		r1, r2 := findRequest(c, ws[i].g.Extra["q"]), pathsRequest(c)
@@ -654,7 +659,10 @@ func judge(w worked, res *lib.Result, t *tally, verbose bool) (bad bool) {
 		report(lib.Disagreement{Kind: "crash", Go: w.msg, SpecVerdict: "violates", What: "goyang crashed or hung during Process/Find: " + firstLine(w.msg)})
 		return
 	}
-	if w.g.ParseErr != "" || w.g.Extra == nil {
+	if w.g.ParseErr != "" || w.g.Extra == nil || len(w.g.Extra["rejected"]) > 0 {
+		if len(w.g.Extra["rejected"]) > 0 {
+			t.kinds["set-rejected-as-expected"]++
+		}
 		t.noTrees++
 		return
 	}
@@ -837,7 +845,7 @@ func main() {
 	}
 	res.Evaluations = t.queries
 	res.DistinctNontrivial = t.triples.Len()
-	res.Rule = "hand-written corpus (the Lean example forest, submodules, grouping copies from other modules, implicit cases, absent rpc/action input and output, the documented-limit witnesses) + seeded grammar-directed module sets (harness/gen; 3/4 without deliberate faults); per error-free set all (start, target) pairs of nodes of all module and submodule trees up to 40 nodes (sampled beyond) x absolute path under every prefix the start's context module binds to the target's module (3 spellings) and relative path, + one-corrupted-step paths, + creation of absent rpc inputs/outputs; evaluations = Find calls compared with the model; distinct_nontrivial = distinct (set, start, target) triples looked up with a path of at least 2 steps"
+	res.Rule = "hand-written corpus (the Lean example forest, submodules, grouping copies from other modules, implicit cases, absent rpc/action input and output, the documented-limit witnesses D17-L1, the rejected augment into an rpc node) + seeded grammar-directed module sets (harness/gen; 3/4 without deliberate faults); per error-free set all (start, target) pairs of nodes of all module and submodule trees up to 40 nodes (sampled beyond) x absolute path under every prefix the start's context module binds to the target's module (3 spellings) and relative path, + one-corrupted-step paths, + creation of absent rpc inputs/outputs; evaluations = Find calls compared with the model; distinct_nontrivial = distinct (set, start, target) triples looked up with a path of at least 2 steps"
 	res.Distribution["sets_compared"] = t.sets
 	res.Distribution["sets_without_trees(errors/parse)"] = t.noTrees
 	res.Distribution["outside_model"] = t.outside
